@@ -26,7 +26,7 @@ def run(tier):
         explanation=f'{len(n)} generated conditions, one per operator skeleton (all sequences of length <= '
                     f'{3 if tier == "thorough" else 2} over map, filter, head, tail, accumulate, batch+unbatch, batch+map(len), '
                     'batch+head+unbatch, batch+tail+unbatch, groupby, peek), plus hand-written conditions for exception '
-                    'objects/filter_exceptions, nested lists, batches of batches and shuffle. Inside a condition the element '
+                    'objects/filter_exceptions, peek over plain values / never-raised / raised exception objects (identity of every element), nested lists, batches of batches and shuffle. Inside a condition the element '
                     'list and every parameter are symbolic; CrossHair executes the real Stream operators and a reference of '
                     'the documented sequential meaning and compares; building the pipeline must pull 0 source elements; for '
                     'one-to-one chains taking k outputs must pull at most k+1.',
@@ -36,7 +36,7 @@ def run(tier):
                      'random.randrange/shuffle are replaced by a symbolic choice list in the shuffle condition'],
         outside=['lists longer than the `pre:` bound (4; 5 for skeletons of length <= 2 in thorough), skeletons longer than 2 quick / 3 thorough',
                  'groupby groups consumed late', 'non-integer payload arithmetic'],
-        timeout_quick=120, timeout_thorough=240,
+        timeout_quick=300, timeout_thorough=400,
         functions=['mpservice/streamer/_streamer.py:' + c for c in (
             'Stream.map', 'Stream.filter', 'Stream.filter_exceptions', 'Stream.peek', 'Stream.head', 'Stream.tail',
             'Stream.groupby', 'Stream.batch', 'Stream.unbatch', 'Stream.accumulate', 'Stream.shuffle', 'Stream.collect',
